@@ -276,7 +276,25 @@ func baseEvent(c call) *event {
 		Recon: true, Sorted: true, ValsEx: true, FacEx: true, Agree: true, Middle: true, Invar: true}
 }
 
-func skipKey(c call) string { return fmt.Sprintf("%d:%s:%d", c.Case, c.Routine, c.Eps) }
+// routines that run the same iteration on the same matrix: when one of them does not return, the
+// others are not started for that case (skipped, counted)
+func family(rt string) string {
+	switch rt {
+	case "qr", "eigen", "eigen_sym":
+		return "qr" // the unsymmetric QR algorithm
+	}
+	return rt
+}
+
+func iterative(rt string) bool {
+	switch rt {
+	case "qr", "qr_sym", "eigen", "eigen_sym", "svd", "msqrt", "msqrtinv":
+		return true
+	}
+	return false
+}
+
+func skipKey(c call) string { return fmt.Sprintf("%d:%s", c.Case, family(c.Routine)) }
 
 /* ------------------------------------------------------------------ child */
 
@@ -333,12 +351,13 @@ func child(args []string) {
 /* ------------------------------------------------------------------ parent */
 
 type shardStat struct {
-	calls, timeouts, fatals, skipped int
+	calls, timeouts, fatals, skipped, retried int
 }
 
 func supervise(self, casesPath, part, skipfile string, shard, nshards int, limit time.Duration, byK map[int]call, total int) shardStat {
 	var st shardStat
 	startK := 1
+	confirmK := 0 // call that exceeded the watchdog once and is being re-run with a longer limit
 	skips := []string{}
 	for restarts := 0; ; restarts++ {
 		if restarts > 400 {
@@ -389,7 +408,16 @@ func supervise(self, casesPath, part, skipfile string, shard, nshards int, limit
 				break loop
 			case <-tick.C:
 				mu.Lock()
-				if busy && time.Since(since) > limit && !killed {
+				lim := limit
+				if busy && cur == confirmK {
+					// second attempt: rules out a stall of the (shared) machine
+					if iterative(byK[cur].Routine) {
+						lim = 4 * limit
+					} else {
+						lim = 40 * limit
+					}
+				}
+				if busy && time.Since(since) > lim && !killed {
 					killed = true
 					cmd.Process.Kill()
 				}
@@ -409,6 +437,11 @@ func supervise(self, casesPath, part, skipfile string, shard, nshards int, limit
 			os.Exit(3)
 		}
 		c := byK[k]
+		if killed && confirmK != k {
+			confirmK, startK = k, k
+			st.retried++
+			continue
+		}
 		ev := baseEvent(c)
 		if killed {
 			ev.Outcome = "timeout"
@@ -492,11 +525,29 @@ func run(args []string) {
 		sum.calls += stats[s].calls
 		sum.timeouts += stats[s].timeouts
 		sum.fatals += stats[s].fatals
+		sum.retried += stats[s].retried
 	}
 	out.Close()
+	// calls that were never started because the same iteration did not return before
+	seenK := map[int]bool{}
+	vh.EachLine(args[1], func(line []byte) error {
+		var e struct {
+			K int `json:"k"`
+		}
+		if json.Unmarshal(line, &e) == nil {
+			seenK[e.K] = true
+		}
+		return nil
+	})
+	skippedPer := map[string]int{}
+	for k, c := range byK {
+		if !seenK[k] {
+			skippedPer[c.Routine]++
+		}
+	}
 	res := vh.NewOut(args[2])
 	vh.Summary(res, vh.M{"cases": len(cases), "calls_planned": total, "events": nev, "timeouts": sum.timeouts,
-		"fatals": sum.fatals, "skipped_after_timeout": total - nev, "per_routine": perRoutine, "limit_ms": int(limit / time.Millisecond)})
+		"fatals": sum.fatals, "watchdog_retries": sum.retried, "skipped_after_timeout": total - nev, "per_routine": perRoutine, "skipped_per_routine": skippedPer, "limit_ms": int(limit / time.Millisecond)})
 	res.Close()
 }
 
